@@ -10,6 +10,7 @@ pub mod c02;
 pub mod c03;
 pub mod c04;
 pub mod c05;
+pub mod c06;
 pub mod c07;
 pub mod procgen;
 pub mod c08;
@@ -135,6 +136,7 @@ pub fn run_batch(u: &mut Universe, b: &Batch, st: &mut Stats) {
         "C03" => c03::run(u, b, st),
         "C04" => c04::run(u, b, st),
         "C05" => c05::run(u, b, st),
+        "C06" => c06::run(u, b, st),
         "C07" => c07::run(u, b, st),
         "C08" => c08::run(u, b, st),
         "C09" => c09::run(u, b, st),
@@ -191,6 +193,10 @@ pub fn run_check(id: &str, tier: &str, seed: u64, jobs: usize) -> i32 {
         "C16" => {
             let res = crate::coord::run_batches(c16::plan(tier, seed), jobs);
             c16::finalise(tier, seed, res)
+        }
+        "C06" => {
+            let res = crate::coord::run_batches(c06::plan(tier, seed), jobs);
+            c06::finalise(tier, seed, res)
         }
         "C07" => c07::check(tier, seed, jobs),
         "C08" => {
